@@ -54,6 +54,7 @@ from liquid2 import DictLoader
 from liquid2 import Environment
 from liquid2 import FileSystemLoader
 from liquid2 import RenderContext
+from liquid2.exceptions import LiquidError
 from liquid2.exceptions import TemplateNotFoundError
 
 NAMES = ["a", "b", "c"]
@@ -575,6 +576,16 @@ class C14(Prop):
                     if cfg["loader"] != "dict" and cfg["reload"] and any(op[0] == "M" for op in hist):
                         yield {**cfg, "h": [list(op) for op in hist], "mtime": "back"}
 
+        # two search paths, one or two names, histories of writes / deletes / loads
+        alphabet = [["w", 0, "x"], ["w", 1, "x"], ["d", 0, "x"], ["d", 1, "x"], ["L", "s", "x"], ["L", "a", "x"],
+                    ["w", 1, "y"], ["L", "s", "y"]]
+        for n in range(2, (5 if tier == "quick" else 6)):
+            for hist in itertools.product(alphabet, repeat=n):
+                if hist[-1][0] != "L" or not any(op[0] == "L" for op in hist[:-1]) or not any(op[0] == "w" for op in hist):
+                    continue
+                yield {"kind": "shadow", "loader": "fs2", "cap": 2, "reload": True, "h": [list(op) for op in hist],
+                       "mtime": "back" if n % 2 else "fwd"}
+
     def enumerated_is_exhaustive(self, tier: str) -> bool:
         return True
 
@@ -588,12 +599,73 @@ class C14(Prop):
         return {"operations_executed": self._steps, "gets_executed": self._gets}
 
     def sample(self, case: Any) -> Any:
+        if case.get("kind") == "shadow":
+            return case
         return {"loader": case["loader"], "cap": case["cap"], "reload": case["reload"],
                 "h": " ".join(_op_str(op) for op in case["h"])[:400]}
 
     # ------------------------------------------------------------------ oracle
 
+    def _check_shadow(self, case: dict[str, Any]) -> Result:
+        """Two search paths: an entry cached from the later path must give way when the same name appears in the
+        earlier one (and come back when it goes again).  Every load is compared with an uncached loader over the
+        same directories at that moment."""
+        res = Result()
+        res.labels.append("shadow")
+        root = tempfile.mkdtemp(prefix="c14s-", dir=_TMP_PARENT)
+        try:
+            paths = [os.path.join(root, "p1"), os.path.join(root, "p2")]
+            for p in paths:
+                os.makedirs(p)
+            cached = Environment(loader=CachingFileSystemLoader(paths, auto_reload=True, capacity=case["cap"]))
+            tick = 0
+            changed = False
+            for i, op in enumerate(case["h"]):
+                if op[0] == "w":
+                    tick += 1
+                    path = os.path.join(paths[op[1]], op[2])
+                    with open(path, "w", encoding="utf-8") as fd:
+                        fd.write(f"{op[2]}@{tick}[p{op[1] + 1}]")
+                    t = (MTIME_BASE + (-tick if case.get("mtime") == "back" else tick)) * 1_000_000_000
+                    os.utime(path, ns=(t, t))
+                    changed = True
+                elif op[0] == "d":
+                    try:
+                        os.unlink(os.path.join(paths[op[1]], op[2]))
+                        changed = True
+                    except FileNotFoundError:
+                        pass
+                else:
+                    plain = Environment(loader=FileSystemLoader(paths))
+                    outs = []
+                    for env in (cached, plain):
+                        try:
+                            if op[1] == "a":
+                                outs.append(("ok", run_async(self._load_async(env, op[2]))))
+                            else:
+                                outs.append(("ok", env.get_template(op[2]).render()))
+                        except LiquidError as err:
+                            outs.append(("err", type(err).__name__))
+                    res.evaluations += 2
+                    if changed and i:
+                        res.nontrivial = True
+                    if outs[0] != outs[1]:
+                        res.fail("uncached-view", f"search-path-shadow:{'async' if op[1] == 'a' else 'sync'}",
+                                 f"step {i}: the caching loader gave {outs[0]!r}, an uncached loader over the same "
+                                 f"search paths gives {outs[1]!r}; history={case['h']}")
+                        return res
+        finally:
+            shutil.rmtree(root, ignore_errors=True)
+        return res
+
+    @staticmethod
+    async def _load_async(env: Any, name: str) -> str:
+        t = await env.get_template_async(name)
+        return str(await t.render_async())
+
     def check(self, case: Any, disabled: frozenset[str] = frozenset()) -> Result:
+        if case.get("kind") == "shadow":
+            return self._check_shadow(case)
         res = Result()
         res.evaluations = 0
         if disabled:
